@@ -234,6 +234,8 @@ BREAKING = [
     ('C15', 'sc3/synth/ugen.py', "            return BinaryOpUGen.new(selector, input, self)", "            return BinaryOpUGen.new(selector, self, input)", 'reflected operator on a unit forgets to exchange the operands'),
     ('C17', 'sc3/synth/node.py', "            4, target.node_id, # 4 -> 'addReplace'", "            3, target.node_id, # 4 -> 'addReplace'", 'Synth.replace sends add action 3'),
     ('C17', 'sc3/synth/node.py', "        obj.node_id = obj.server._next_node_id() if node_id is None else node_id", "        obj.node_id = srv.Server.default._next_node_id() if node_id is None else node_id", 'node id taken from the default server instead of the node\'s own'),
+    ('C18', 'sc3/base/_oscinterface.py', "        except:\n            _logger.error(\n                'Exception happened during processing '", "        except KeyError:\n            _logger.error(\n                'Exception happened during processing '", 'the receiver lets exceptions of the parser escape'),
+    ('C18', 'sc3/base/_oscinterface.py', "            for timed_msg in packet.messages:", "            for timed_msg in packet.messages[1:]:", 'the first message of every packet is dropped'),
 ]
 
 
